@@ -13,7 +13,7 @@ from pdl import program_hidden
 FACETS = ("eval", "keys", "validate", "explain", "trace", "cache", "log", "req", "mut", "construct")
 
 OP_FACET = {"evaluate": "eval", "keys": "keys", "validate": "validate", "explain": "explain", "transform": "eval",
-            "fingerprint": "keys"}
+            "fingerprint": "keys", "set_get": "eval"}
 
 
 def run_impl(programs: Sequence[Dict[str, Any]], hashseed: Optional[str] = "0", timeout: int = 1800) -> List[Any]:
